@@ -48,12 +48,7 @@ func checkC08(c *Ctx) {
 	c.RequireCount("C08.err calls returning an error", n, 6)
 
 	if j := anchor(c, pkgDeps+".jumps"); j != nil {
-		cps := FindCompactions(j)
-		if len(cps) > 0 {
-			checkCompaction(c, "C08.jumps", j)
-		} else {
-			checkJumpsAppendForm(c, j)
-		}
+		checkJumpsWalk(c, j)
 		// whatever the form: the loop over the possibilities is left only when they are exhausted
 		for _, l := range possibilityLoops(j) {
 			early := ""
@@ -65,75 +60,6 @@ func checkC08(c *Ctx) {
 				}
 			}
 			c.Oblige("C08.jumps", ShortName(j)+"/all-possibilities-visited", c.Prog.FuncPos(j), early == "", "the loop over the possible targets can be left early (at "+early+"): the remaining targets of the instruction are lost")
-		}
-		ipKey := ""
-		if ep := c.Prog.SSAPkg[ExprPkg]; ep != nil && ep.Const("IPKey") != nil {
-			ipKey = strings.Trim(ep.Const("IPKey").Value.Value.ExactString(), "\"")
-		}
-		for _, cp := range cps {
-			key := ShortName(j) + "/drop-guard"
-			// source of the slice: Possibilities(e.Value()) of a RegStore keyed IPKey
-			srcOK := false
-			if bd, ok := Match(cp.S, CallTo(pkgXform+".Possibilities", Method("Value", Capture("e", TypeAssertOf("pkg/expr.RegStore", Any()))))); ok {
-				e := bd.M["e"]
-				for _, g := range GuardsOf(cp.Header) {
-					if bo, ok := g.Cond.(*ssa.BinOp); ok && (bo.Op == token.NEQ || bo.Op == token.EQL) {
-						if matches(bo.X, Method("Key", func(v ssa.Value, _ *Bind) bool { return Unwrap(v) == e })) {
-							if k, isC := bo.Y.(*ssa.Const); isC && k.Value != nil && strings.Trim(k.Value.ExactString(), "\"") == ipKey && (bo.Op == token.EQL) == g.Outcome {
-								srcOK = true
-							}
-						}
-					}
-				}
-			}
-			c.Oblige("C08.jumps", ShortName(j)+"/source", c.Prog.Pos(cp.Store.Pos()), srcOK && ipKey != "", "jump targets are not taken from Possibilities(e.Value()) of the register stores to the instruction pointer")
-			// stored value is ConstFold(addrs[i])
-			foldOK := matches(cp.Store.Val, CallTo(pkgXform+".ConstFold", Any()))
-			c.Oblige("C08.jumps", ShortName(j)+"/fold-before-test", c.Prog.Pos(cp.Store.Pos()), foldOK, "the kept target is not the constant-folded possibility")
-			// decrement sites of j
-			nDec := 0
-			for _, b := range j.Blocks {
-				for _, in := range b.Instrs {
-					bo, ok := in.(*ssa.BinOp)
-					if !ok || bo.Op != token.SUB || bo.X != ssa.Value(cp.J) {
-						continue
-					}
-					if k, isC := ConstInt(bo.Y); !isC || k != 1 {
-						continue
-					}
-					nDec++
-					constOK, eqEnd := false, false
-					for _, g := range GuardsOf(b) {
-						if ex, ok := g.Cond.(*ssa.Extract); ok && ex.Index == 1 && g.Outcome {
-							if ta, ok := ex.Tuple.(*ssa.TypeAssert); ok && TypeNameIs(ta.AssertedType, "pkg/expr.Const") && Unwrap(ta.X) == Unwrap(cp.Store.Val) {
-								constOK = true
-							}
-						}
-						if cmp, ok := g.Cond.(*ssa.BinOp); ok && (cmp.Op == token.NEQ || cmp.Op == token.EQL) {
-							isAddr := func(v ssa.Value) bool {
-								return matches(v, ExtractN(0, CallTo("pkg/expr.ConstUint", TypeAssertOf("pkg/expr.Const", func(x ssa.Value, _ *Bind) bool { return Unwrap(x) == Unwrap(cp.Store.Val) }))))
-							}
-							isEnd := func(v ssa.Value) bool {
-								return matches(v, Method("End", func(x ssa.Value, _ *Bind) bool { return IsParam(x, j.Params[0]) }))
-							}
-							if (isAddr(cmp.X) && isEnd(cmp.Y)) || (isAddr(cmp.Y) && isEnd(cmp.X)) {
-								if (cmp.Op == token.EQL) == g.Outcome {
-									eqEnd = true
-								}
-							}
-						}
-					}
-					switch {
-					case !constOK:
-						c.Fail("C08.jumps", key, c.Prog.Pos(bo.Pos()), "a target is dropped although it did not fold to a constant")
-					case !eqEnd:
-						c.Fail("C08.jumps", key, c.Prog.Pos(bo.Pos()), "a constant target is dropped without being equal to ins.End(): a real jump target is lost and the block is not ended there")
-					default:
-						c.Pass("C08.jumps", key, c.Prog.Pos(bo.Pos()), "")
-					}
-				}
-			}
-			c.RequireCount("C08.jumps drop sites", nDec, 1)
 		}
 	}
 
@@ -212,10 +138,7 @@ func checkC08(c *Ctx) {
 		}
 		c.Oblige("C08.split", ShortName(p)+"/pipeline", c.Prog.FuncPos(p), okChain, why)
 	}
-	if n := checkShifts(c, "C08.split", pkgBB); true {
-		// blocks.split opens the slot for the second half by a shift
-		c.RequireCount("C08.split in-place shift in basicblock (blocks.split insertion)", n, 1)
-	}
+	checkShifts(c, "C08.split", pkgBB) // blocks.split opens the slot for the second half by a shift loop or by copy (overlap-safe)
 	if sa := anchor(c, pkgBB+".splitByAddress"); sa != nil {
 		// an append of a sub-sequence inside the loop happens only on End() != Begin()
 		n, bad := 0, ""
@@ -300,17 +223,38 @@ func checkC08(c *Ctx) {
 			n++
 			addr := cs.Common().Args[len(cs.Common().Args)-1]
 			constOK, fitOK := false, false
-			for _, gd := range GuardsOf(cs.Block()) {
-				if ex, ok := gd.Cond.(*ssa.Extract); ok && ex.Index == 1 && gd.Outcome {
-					if ta, ok := ex.Tuple.(*ssa.TypeAssert); ok && TypeNameIs(ta.AssertedType, "pkg/expr.Const") {
-						constOK = true
-					}
-					if call, ok := ex.Tuple.(*ssa.Call); ok && FuncNameIs(call.Call.StaticCallee(), "pkg/expr.ConstUint") {
-						if matches(addr, ExtractN(0, func(v ssa.Value, _ *Bind) bool { return v == ssa.Value(call) })) {
-							fitOK = true
-						}
-					}
+			enterBB := InModulePkg(st)
+			isConstOK := func(v ssa.Value) bool {
+				ex, ok := v.(*ssa.Extract)
+				if !ok || ex.Index != 1 {
+					return false
 				}
+				ta, ok := ex.Tuple.(*ssa.TypeAssert)
+				return ok && TypeNameIs(ta.AssertedType, "pkg/expr.Const")
+			}
+			isFit := func(idx int) func(ssa.Value) bool {
+				return func(v ssa.Value) bool {
+					ex, ok := v.(*ssa.Extract)
+					if !ok || ex.Index != idx {
+						return false
+					}
+					call, ok := ex.Tuple.(*ssa.Call)
+					return ok && FuncNameIs(call.Call.StaticCallee(), "pkg/expr.ConstUint")
+				}
+			}
+			// the address is what ConstUint made of a constant, and the split is
+			// conditional on both "is a constant" and "fits an address" (written in
+			// place or in a helper predicate)
+			for _, gd := range GuardsOf(cs.Block()) {
+				if DependsOnVia(nil, gd.Cond, enterBB, isConstOK, nil) || helperTrueImplies(gd.Cond, enterBB, isConstOK) {
+					constOK = true
+				}
+				if DependsOnVia(nil, gd.Cond, enterBB, isFit(1), nil) {
+					fitOK = true
+				}
+			}
+			if !DependsOnVia(nil, addr, enterBB, isFit(0), nil) {
+				fitOK = false
 			}
 			c.Oblige("C08.split", ShortName(st)+"/split-at-constant-targets", c.Prog.Pos(cs.Pos()), constOK && fitOK, "blocks are split at something that is not a constant jump target fitting an address")
 		}
@@ -765,6 +709,234 @@ func isLoopHeaderOf(b *ssa.BasicBlock, loop map[*ssa.BasicBlock]bool) bool {
 // checkJumpsAppendForm decides deps.jumps when it is written as a loop that
 // appends the kept targets: every iteration either appends the folded
 // possibility or skips it under (folded to a constant) && (== ins.End()).
+// checkJumpsWalk follows deps.jumps concretely (E7) for an instruction with
+// one effect: when the effect is not a register store to the instruction
+// pointer nothing is a jump target; otherwise, for two possible targets and
+// every combination of "folds to a constant" and "equals ins.End()", exactly
+// the targets that are constants equal to ins.End() are dropped. The form of
+// the filtering (in-place compaction, appending, helper predicates) is free.
+func checkJumpsWalk(c *Ctx, j *ssa.Function) {
+	ipKey := ""
+	if ep := c.Prog.SSAPkg[ExprPkg]; ep != nil && ep.Const("IPKey") != nil {
+		ipKey = strings.Trim(ep.Const("IPKey").Value.Value.ExactString(), "\"")
+	}
+	isIPConst := func(v ssa.Value) bool {
+		k, ok := Unwrap(v).(*ssa.Const)
+		return ok && k.Value != nil && ipKey != "" && strings.Trim(k.Value.ExactString(), "\"") == ipKey
+	}
+	isCallTo := func(v ssa.Value, name string) *ssa.Call {
+		call, ok := Unwrap(v).(*ssa.Call)
+		if !ok || call.Call.StaticCallee() == nil || Origin(call.Call.StaticCallee()).Name() != name {
+			return nil
+		}
+		return call
+	}
+	n := 0
+	for mask := 0; mask < 64; mask++ {
+		isRS, isIP := mask&1 != 0, mask&2 != 0
+		konst := [2]bool{mask&4 != 0, mask&8 != 0}
+		eq := [2]bool{mask&16 != 0, mask&32 != 0}
+		if (!isRS || !isIP) && mask >= 4 {
+			continue
+		}
+		cur := int64(-1)
+		var possCall *ssa.Call
+		kept := int64(-1)
+		appended := int64(0)
+		why := ""
+		var vl *Valuation
+		isPoss := func(v ssa.Value) bool {
+			call := isCallTo(vl.Root(v), "Possibilities")
+			return call != nil
+		}
+		vl = &Valuation{
+			Enter: SamePackage(j),
+			Int: func(v ssa.Value) (int64, bool) {
+				if call, ok := v.(*ssa.Call); ok {
+					if bi, isBi := call.Call.Value.(*ssa.Builtin); isBi && bi.Name() == "len" {
+						if isPoss(call.Call.Args[0]) {
+							return 2, true
+						}
+						if n, _, isF := FieldNameOfLoad(vl.Root(call.Call.Args[0])); isF && n == "Effects" {
+							return 1, true
+						}
+					}
+				}
+				return 0, false
+			},
+			Bool: func(v ssa.Value) (bool, bool) {
+				switch x := v.(type) {
+				case *ssa.Extract:
+					if ta, ok := x.Tuple.(*ssa.TypeAssert); ok && x.Index == 1 {
+						switch {
+						case TypeNameIs(ta.AssertedType, "pkg/expr.RegStore"):
+							return isRS, true
+						case TypeNameIs(ta.AssertedType, "pkg/expr.Const"):
+							if isCallTo(vl.Root(ta.X), "ConstFold") != nil && cur >= 0 && cur < 2 {
+								return konst[cur], true
+							}
+						}
+					}
+				case *ssa.BinOp:
+					if x.Op == token.EQL || x.Op == token.NEQ {
+						if isIPConst(vl.Root(x.X)) || isIPConst(vl.Root(x.Y)) {
+							return isIP == (x.Op == token.EQL), true
+						}
+						isEnd := func(v ssa.Value) bool {
+							return isCallTo(vl.Root(v), "End") != nil || func() bool { _, p := vl.Root(v).(*ssa.Parameter); return p }()
+						}
+						isAddr := func(v ssa.Value) bool {
+							r := vl.Root(v)
+							if ex, ok := r.(*ssa.Extract); ok {
+								r = ex.Tuple
+							}
+							return isCallTo(r, "ConstUint") != nil
+						}
+						if (isAddr(x.X) && isEnd(x.Y)) || (isAddr(x.Y) && isEnd(x.X)) {
+							if cur >= 0 && cur < 2 {
+								return eq[cur] == (x.Op == token.EQL), true
+							}
+						}
+					}
+				}
+				return false, false
+			},
+		}
+		vl.Visit = func(in ssa.Instruction) {
+			switch x := in.(type) {
+			case *ssa.Call:
+				if call := isCallTo(x, "Possibilities"); call != nil {
+					possCall = call
+					// the value of a RegStore: decided by the source obligation below
+				}
+				if call := isCallTo(x, "ConstFold"); call != nil {
+					// which possibility is being looked at
+					cur = -1
+					if ld, ok := vl.Root(call.Call.Args[0]).(*ssa.UnOp); ok {
+						if ia, ok := ld.X.(*ssa.IndexAddr); ok && isPoss(ia.X) {
+							if i, ok := vl.EvalInt(ia.Index, nil); ok {
+								cur = i
+							}
+						}
+					}
+					if cur < 0 {
+						why = "a possibility is constant-folded that is not an element of Possibilities(...)"
+					}
+				}
+				if bi, ok := x.Call.Value.(*ssa.Builtin); ok && bi.Name() == "append" && len(x.Call.Args) == 2 {
+					// append(kept, a): one folded target is kept
+					if sl, ok := vl.Root(x.Call.Args[1]).(*ssa.Slice); ok {
+						if al, isAl := sl.X.(*ssa.Alloc); isAl && al.Referrers() != nil {
+							for _, r := range *al.Referrers() {
+								if ia, ok := r.(*ssa.IndexAddr); ok && ia.Referrers() != nil {
+									for _, r2 := range *ia.Referrers() {
+										if st, ok := r2.(*ssa.Store); ok && isCallTo(vl.Root(st.Val), "ConstFold") != nil {
+											appended++
+										}
+									}
+								}
+							}
+						} else if isPoss(sl.X) && sl.High != nil {
+							// append(jumpAddrs, addrs[:j]...): j targets are kept
+							if k, ok := vl.EvalInt(sl.High, nil); ok {
+								kept = k
+							}
+						}
+					}
+				}
+			}
+		}
+		res := vl.Walk(j.Blocks[0], nil)
+		n++
+		key := fmt.Sprintf("%s/walk(RegStore=%v, IPKey=%v", ShortName(j), isRS, isIP)
+		want := int64(0)
+		if isRS && isIP {
+			key += fmt.Sprintf(", constant=%v, equals End()=%v", konst, eq)
+			for k := 0; k < 2; k++ {
+				if !(konst[k] && eq[k]) {
+					want++
+				}
+			}
+		}
+		key += ")"
+		got := kept
+		if got < 0 {
+			got = appended
+		}
+		switch {
+		case why != "":
+		case !res.OK:
+			why = "the function cannot be followed: " + res.Why
+		case !(isRS && isIP) && possCall != nil:
+			why = "possible targets are taken from an effect that is not a register store to the instruction pointer"
+		case isRS && isIP && possCall == nil:
+			why = "the possible values of the instruction pointer are not enumerated with Possibilities"
+		case got != want:
+			why = fmt.Sprintf("%d targets are kept, expected %d (a target is dropped exactly when it folds to a constant equal to ins.End())", got, want)
+		}
+		if why == "" && possCall != nil {
+			// Possibilities(e.Value()) of the asserted RegStore
+			if !DependsOn(possCall.Call.Args[0], func(v ssa.Value) bool {
+				call, ok := v.(*ssa.Call)
+				return ok && call.Call.StaticCallee() != nil && call.Call.StaticCallee().Name() == "Value" && TypeNameIs(call.Call.Args[0].Type(), "pkg/expr.RegStore")
+			}) {
+				why = "the possibilities are not those of the stored value e.Value()"
+			}
+		}
+		c.Oblige("C08.jumps", key, c.Prog.FuncPos(j), why == "", why)
+	}
+	c.RequireCount("C08.jumps combinations walked", n, 19)
+}
+
+// helperTrueImplies: cond is the k-th (boolean) result of a call to an entered
+// helper, and every return of the helper that does not return the constant
+// false in that position is reached only over an edge on which a condition
+// satisfying pred holds (or returns something derived from such a condition).
+func helperTrueImplies(cond ssa.Value, enter func(*ssa.Function) bool, pred func(ssa.Value) bool) bool {
+	if un, ok := cond.(*ssa.UnOp); ok && un.Op == token.NOT {
+		cond = un.X
+	}
+	ex, ok := cond.(*ssa.Extract)
+	if !ok {
+		return false
+	}
+	call, ok := ex.Tuple.(*ssa.Call)
+	if !ok {
+		return false
+	}
+	g := call.Call.StaticCallee()
+	if g != nil && g.Blocks == nil {
+		g = Origin(g)
+	}
+	if g == nil || g.Blocks == nil || !enter(g) {
+		return false
+	}
+	found := false
+	for _, b := range g.Blocks {
+		ret, isRet := b.Instrs[len(b.Instrs)-1].(*ssa.Return)
+		if !isRet || ex.Index >= len(ret.Results) {
+			continue
+		}
+		if matches(ret.Results[ex.Index], BoolPat(false)) {
+			continue
+		}
+		ok := DependsOn(ret.Results[ex.Index], pred)
+		for _, gd := range GuardsOf(b) {
+			if gd.Outcome && pred(gd.Cond) {
+				ok = true
+			}
+			if un, isNot := gd.Cond.(*ssa.UnOp); isNot && un.Op == token.NOT && !gd.Outcome && pred(un.X) {
+				ok = true
+			}
+		}
+		if !ok {
+			return false
+		}
+		found = true
+	}
+	return found
+}
+
 func checkJumpsAppendForm(c *Ctx, j *ssa.Function) {
 	loops := possibilityLoops(j)
 	if len(loops) != 1 {
